@@ -12,6 +12,7 @@ import (
 
 	"seehuhn.de/go/postscript/funit"
 	"seehuhn.de/go/sfnt"
+	"seehuhn.de/go/sfnt/glyf"
 	"seehuhn.de/go/sfnt/glyph"
 	"verif/harness/fontcmp"
 	genfont "verif/harness/gen/font"
@@ -55,6 +56,18 @@ func normalise(f *sfnt.Font) *sfnt.Font {
 		if gid := lookup('H'); gid != 0 {
 			e.CapHeight = glyphHeight(f, gid)
 		}
+	}
+	if o, ok := f.Outlines.(*glyf.Outlines); ok && o.Tables != nil {
+		// empty cvt/fpgm/prep/gasp tables are written with length 0 and not
+		// reported by the reader
+		o2 := *o
+		o2.Tables = map[string][]byte{}
+		for k, v := range o.Tables {
+			if len(v) > 0 {
+				o2.Tables[k] = v
+			}
+		}
+		e.Outlines = &o2
 	}
 	if f.XHeight <= 0 {
 		e.XHeight = 0
